@@ -119,6 +119,17 @@ CLAIMED['C09'] = dict(
     technique="linear-form extraction over exponent arrays with a weight table (units-of-measure style), index-domain inference, parallel-array co-movement and guard-shape rules over the clang-resolved AST",
     ref="DESIGN.md section 4, C09")
 
+CLAIMED['C13'] = dict(
+    text="Structural necessary conditions in the reader code (about 100 functions of the LP, MPS, basis and settings readers and NameSet): every fixed-size "
+         "char buffer is used only through bounded idioms (classification of every use; pointer walks and index copies bounded only by their source are "
+         "reported); placement-new objects are destroyed before their memory is freed and spx_alloc'ed locals are freed on every normal exit; buffers "
+         "that share a growing size variable are all re-sized; NameSet::add's capacity guard covers the bytes consumed; failed reads clear what they "
+         "built; throwing conversions in the settings front ends are inside try blocks; the test after a stream read takes its exit arm at end of "
+         "file; a char pointer is not advanced beyond the terminator it was found on. Positive controls fire on every run. This pins known-dangerous "
+         "idioms; it is not a proof of memory safety - a fuzzer is the natural tool for the rest.",
+    technique="buffer-use classification, alloc/free and construct/destroy pairing on the CFG, three-valued evaluation of stream-state and terminator tests, linear guard/consumption comparison over the clang-resolved AST",
+    ref="DESIGN.md section 4, C13")
+
 NA = {
     'C10': "every clause quantifies over run-time numbers (residuals at rounding level, singular vs. well-conditioned, agreement of multi-rhs solves); "
            "no structural clause is both checkable and necessary (DESIGN.md section 5)",
